@@ -171,6 +171,7 @@ func (p *Program) Set(t Tag, value string) error {
 		if value == "" {
 			return errDupProgram
 		}
+		return p.SetUID(value)
 	case programNameTag:
 		p.name = value
 	case commandLineTag:
